@@ -80,6 +80,8 @@ func (pass *DisjunctionInferMapping) inferDiscriminatorField(schema *ast.Schema,
 	fieldName := ""
 	// map[typeName][fieldName]value
 	candidates := make(map[string]map[string]any)
+	// map[typeName][]fieldName, in declaration order (ranging over a map has no stable order)
+	candidatesOrder := make(map[string][]string)
 
 	// Identify candidates from each branch
 	for _, branch := range def.Branches {
@@ -101,6 +103,8 @@ func (pass *DisjunctionInferMapping) inferDiscriminatorField(schema *ast.Schema,
 				continue
 			}
 
+			candidatesOrder[typeName] = append(candidatesOrder[typeName], field.Name)
+
 			switch field.Type.Kind {
 			case ast.KindScalar:
 				candidates[typeName][field.Name] = field.Type.AsScalar().Value
@@ -120,7 +124,7 @@ func (pass *DisjunctionInferMapping) inferDiscriminatorField(schema *ast.Schema,
 		allTypes = append(allTypes, typeName)
 	}
 
-	for candidateFieldName := range candidates[someType] {
+	for _, candidateFieldName := range candidatesOrder[someType] {
 		existsInAllBranches := true
 		for _, branchTypeName := range allTypes {
 			if _, ok := candidates[branchTypeName][candidateFieldName]; !ok {
